@@ -161,3 +161,6 @@ Proof.
   - unfold pow10. rewrite inject_Z_mult. change (inject_Z (10 ^ 2)) with 100. change (inject_Z 100) with 100. field.
   - rewrite Z.even_mul. reflexivity.
 Qed.
+
+Lemma qround_eq_compat p x y : x == y -> qround p x == qround p y.
+Proof. intros E. rewrite (qround_compat p x y E). reflexivity. Qed.
